@@ -623,3 +623,24 @@ PLAN['C01']['stages'] = lambda tier, seed: (
 PLAN['C01']['rule'] += (' The roots and the leaf count are also compared after every step of the behaviours of spec/Partial.tla '
                         '(partial MapPollard, TotalRows 0/3/63 and from-roots: blocks deleting remembered leaves directly, Verify with '
                         'remember, Ingest, Prune, Undo), with one witness history per (state, kind of the last action).')
+
+
+def vloop(name, bounded, maxn=8, **kw):
+    st = {'kind': 'spec_check', 'name': name, 'module': 'VerifierLoop', 'spec': 'Spec',
+          'constants': {'MaxN': maxn, 'MaxTargets': 2, 'Wrap': 8, 'Bounded': 'TRUE' if bounded else 'FALSE'},
+          'invariants': ['TypeOK', 'StepBound'], 'properties': ['Termination']}
+    if not bounded:
+        st['expect_violation'] = True
+    st.update(kw)
+    return st
+
+
+_c04 = PLAN['C04']['stages']
+PLAN['C04']['stages'] = lambda tier, seed: (
+    [vloop('verifierloop_terminates', True, 8 if tier == 'quick' else 16),
+     vloop('verifierloop_lasso_neg', False)] + _c04(tier, seed))
+PLAN['C04']['rule'] = ('spec/VerifierLoop.tla models the control skeleton of the hash calculation (queue of positions, wrapping row counter, '
+                       'inner row-advance loop) over the untrusted target domain incl. a token for 64-bit values beyond every row; TLC checks '
+                       'termination under weak fairness and a polynomial step bound for every input, and exhibits the lasso of the loop '
+                       'as originally found (negative demonstration of the repaired defect). Atomic rejection is immediate in '
+                       'spec/VerifierFun.tla (the update is a function of an accepted walk). Binding to the code: ' + PLAN['C04']['rule'])
